@@ -1272,7 +1272,35 @@ func (g *G) genMinFreshFailureCase(p *Profile, id string) *Case {
 	return c
 }
 
+// overrides: dedicated case shapes added late.  The regular case of the slot is generated all the same (so that the random
+// stream of the profile, and with it every other case, stays what it was) and then replaced by a case drawn from a generator
+// of its own, seeded by the case id.
+type caseOverride struct {
+	profile string
+	when    func(i int) bool
+	gen     func(g *G, p *Profile, id string) *Case
+}
+
+var overrides []caseOverride
+
 func (g *G) genFor(p *Profile, id string, i int) *Case {
+	c := g.genForBase(p, id, i)
+	for _, o := range overrides {
+		if o.profile == p.Name && o.when(i) {
+			h := uint64(14695981039346656037)
+			for k := 0; k < len(id); k++ {
+				h = (h ^ uint64(id[k])) * 1099511628211
+			}
+			sub := newG(h, 0x0ddc0ffee)
+			sub.canon = g.canon
+			sub.noVaryCC = g.noVaryCC
+			return o.gen(sub, p, id)
+		}
+	}
+	return c
+}
+
+func (g *G) genForBase(p *Profile, id string, i int) *Case {
 	g.noVaryCC = p.Name == "spell"
 	switch {
 	case p.Name == "repeat":
